@@ -266,9 +266,34 @@ class Builder:
                 if rng.random() < 0.08:
                     self.tree_remove(ns, l, path)
                     self.tree_insert(ns, l, path, {"k": "null"})
+        self.null_plural_gadget()
         for key, tree in self.project["data"].items():
             rng.shuffle(tree)
         return self.project
+
+    def null_plural_gadget(self):
+        """A plural that a non-default locale leaves to its parent / the default (`null`), referenced from that locale with a literal
+        count whose category differs between the two locales, with a different variable in every form: whose rules pick the form
+        decides both the text and the argument set."""
+        rng = self.rng
+        if self.ptable is None:
+            return
+        ns = self.nss[0]
+        forms = {f: [{"s": "text", "v": f + " "}, {"s": "var", "name": "v_" + f, "fmt": None}] for f in ("zero", "one", "two", "few", "many", "other")}
+        for rule in ("cardinal", "ordinal"):
+            name = "np_" + rule[:3]
+            for l in self.locales:
+                node = {"k": "plural", "rule": rule, "forms": copy.deepcopy(forms)} if l == self.default else {"k": "null"}
+                self.tree_insert(ns, l, (name,), node if l != self.default else self.localise(node, l) if False else node)
+            for ci, c in enumerate(["0", "1", "2", "3", "5", "11", "21", "1.5"]):
+                lit = {"a": "float", "v": float(c)} if "." in c else {"a": "int", "v": int(c)}
+                for l in self.locales:
+                    eff = model.effective_locale(self.project, ns, l, (name,))
+                    differs = self.ptable[l][rule]["cat"][c] != self.ptable[eff][rule]["cat"][c]
+                    if l == self.default or differs:
+                        self.tree_insert(ns, l, ("npr_%s_%d" % (rule[:3], ci),), {"k": "tmpl", "segs": [{"s": "text", "v": "ref@%s " % l}, {"s": "fk", "ns": ns, "path": [name], "args": [["count", lit]]}]})
+                    else:
+                        self.tree_insert(ns, l, ("npr_%s_%d" % (rule[:3], ci),), {"k": "lit", "ty": "str", "v": "plain@" + l})
 
 
 def hops(project, ns, loc, path, depth=0):
